@@ -757,6 +757,10 @@ class InterpCore(object):
             if all(isinstance(p, SLit) or (isinstance(p, SFmt) and isinstance(p.value, Num)) for p in parts):
                 return any(isinstance(p, SLit) and item.v in p.text for p in parts)
         if type(container).__name__ == "SetAccV" and not container.adds:
+            if len(getattr(self, "loop_stack", ())) > getattr(container, "depth", 0):
+                # the test sits in a symbolic loop and the set outlives the iteration: whatever earlier iterations put into it
+                # is not in this summary of one iteration, so "still empty" would be a guess (the seen-set idiom)
+                return Cond("in", item, container)
             return self.contains(ListV(list(container.concrete), "set"), item, node)
         if type(container).__name__ == "PyObjV" and hasattr(container.obj, "contains"):
             return container.obj.contains(self, item)
